@@ -30,6 +30,19 @@ STATE_ATTRS = {"_tracked_jobs": "tracked", "hashes": "hashes"}
 MUTATING_METHODS = {"update", "pop", "clear", "setdefault", "popitem", "__setitem__", "__delitem__"}
 
 
+class BoundFunc:
+    """A function value with constant keyword arguments already bound (functools.partial)."""
+    __slots__ = ("finfo", "extra")
+
+    def __init__(self, finfo, extra=()):
+        self.finfo = finfo
+        self.extra = tuple(extra)
+
+    @property
+    def key(self):
+        return self.finfo.key
+
+
 class Effect:
     __slots__ = ("kind", "detail", "node", "finfo", "chain")
 
@@ -230,6 +243,8 @@ class Resolver:
                 return {("cls", obj)}
             out = set()
             for callee in self.callees(expr, finfo, {}):
+                if isinstance(callee, BoundFunc):
+                    callee = callee.finfo
                 if isinstance(callee, FuncInfo):
                     out |= self.return_types(callee, depth + 1)
             return out
@@ -312,7 +327,7 @@ class Resolver:
         idx = self.index
         if isinstance(expr, ast.Name):
             if expr.id in bindings and isinstance(bindings[expr.id], tuple):
-                return [(f, ()) for f in bindings[expr.id]]
+                return [(f, e) for f, e in bindings[expr.id]]
             canon = idx.canon(expr, expr._module)
             obj = idx.lookup(canon) if canon else None
             if isinstance(obj, FuncInfo):
@@ -336,7 +351,16 @@ class Resolver:
         if isinstance(expr, ast.Call):
             canon = idx.canon(expr.func, expr._module) if isinstance(expr.func, (ast.Name, ast.Attribute)) else None
             if canon == "functools.partial" and expr.args:
-                return self.callable_values(expr.args[0], finfo, bindings, depth + 1)
+                extra = []
+                for kw in expr.keywords:
+                    if kw.arg is None:
+                        continue
+                    if isinstance(kw.value, ast.Constant) and (isinstance(kw.value.value, bool) or kw.value.value is None):
+                        extra.append((kw.arg, kw.value.value))
+                    elif isinstance(kw.value, ast.Name) and kw.value.id in bindings and not isinstance(bindings[kw.value.id], tuple):
+                        extra.append((kw.arg, bindings[kw.value.id]))
+                inner = self.callable_values(expr.args[0], finfo, bindings, depth + 1)
+                return [(f, tuple(e) + tuple(extra)) for f, e in inner]
             return []
         if isinstance(expr, ast.Attribute):
             canon = idx.canon(expr, expr._module)
@@ -397,7 +421,7 @@ class Resolver:
         f = call.func
         if isinstance(f, ast.Name):
             if f.id in bindings and isinstance(bindings[f.id], tuple):
-                return list(bindings[f.id])
+                return [BoundFunc(fn, ex) for fn, ex in bindings[f.id]]
             # lexical nested function / module function / import
             canon = idx.canon(f, call._module)
             if canon is not None:
@@ -619,7 +643,7 @@ class Resolver:
             else:
                 vals = self.callable_values(a, finfo, bindings)
                 if vals:
-                    new[pname] = tuple(dict.fromkeys(v[0] for v in vals))
+                    new[pname] = tuple(dict.fromkeys((v[0], tuple(v[1])) for v in vals))
                     # partial(f, k=v) : remember constant keyword bindings of the partial for f itself
         # defaults that are constant bools
         return new
@@ -633,7 +657,7 @@ class Resolver:
         stack = [(root, bindings, (root.key,))]
         while stack:
             fi, b, chain = stack.pop()
-            ck = (fi.key, tuple(sorted((k, v if not isinstance(v, tuple) else tuple(x.key for x in v)) for k, v in b.items())))
+            ck = (fi.key, tuple(sorted((k, v if not isinstance(v, tuple) else tuple((x.key, e) for x, e in v)) for k, v in b.items())))
             if ck in visited:
                 continue
             visited[ck] = chain
@@ -671,8 +695,12 @@ class Resolver:
                 if isinstance(n, ast.Call):
                     # nested-function bindings are inherited lexically
                     for callee in self.callees(n, fi, b):
+                        extra = ()
+                        if isinstance(callee, BoundFunc):
+                            callee, extra = callee.finfo, callee.extra
                         if isinstance(callee, FuncInfo):
                             nb = self.bind_args(n, callee, fi, b)
+                            nb.update(dict(extra))
                             if callee.outer is not None:
                                 # closures see the enclosing function's bindings
                                 inherited = dict(b)
